@@ -40,11 +40,11 @@ func checkC02(c *Ctx) {
 	tree := &SketchGen{Init: three, Tokens: []int{11, -10}, Ops: []string{"Add", "Merge", "Clear"}, Q: 4, QDen: 8, Depth: c.pick(4, 5)}
 	c.runSketchGen(tree, mx, c.pick(4, 8), "exhaustive tree add/merge/clear")
 	sim := &SketchGen{Init: plainExact(3, "plain"), Tokens: append(append([]int{}, tokBins3...), 0, -1, 2, -3), Weights: []int{1, 4, 8, 132},
-		Ops: []string{"Add", "AddW", "Merge", "Merge", "EncDec", "Clear", "Copy"}, Q: 4, QDen: 8, Depth: c.pick(14, 24), Simulate: true, Num: c.pick(1500, 40000)}
+		Ops: []string{"Add", "AddW", "Merge", "Merge", "EncDec", "Clear", "Copy"}, Q: 4, QDen: 8, Depth: c.pick(14, 24), Simulate: true, Num: c.pick(1500, 20000)}
 	c.runSketchGen(sim, mx, c.pick(8, 16), "simulated merge trees (MergeWith and DecodeAndMergeWith)")
 	// both variants merge their exact statistics too
 	simx := &SketchGen{Init: plainExact(3, "exact"), Tokens: append(append([]int{}, tokBins2...), 0, 2), Weights: []int{1, 4, 8},
-		Ops: []string{"Add", "AddW", "Merge", "Clear"}, Q: 4, QDen: 8, Depth: c.pick(10, 16), Simulate: true, Num: c.pick(500, 10000)}
+		Ops: []string{"Add", "AddW", "Merge", "Clear"}, Q: 4, QDen: 8, Depth: c.pick(10, 16), Simulate: true, Num: c.pick(500, 5000)}
 	c.runSketchGen(simx, mx, c.pick(6, 12), "simulated merge trees, exact-statistics variant")
 	// direction B: inputs of thousands of values split over 3 sketches and merged; quantiles of the merged sketches
 	// validated by TLC against the union bag (Trace_Sketch)
@@ -68,7 +68,7 @@ func checkC12(c *Ctx) {
 	tree := &SketchGen{Init: one, Tokens: []int{10, 13, -10, -13, 0, 2, -3}, Weights: []int{2}, Ops: []string{"Add", "AddW", "Clear"}, Q: 4, QDen: 8, Depth: c.pick(4, 5)}
 	c.runSketchGen(tree, mx, c.pick(4, 8), "exhaustive tree, all sign mixes")
 	sim := &SketchGen{Init: plainExact(2, "plain"), Tokens: append(append([]int{}, tokBins3...), tokZero...), Weights: []int{1, 2, 4, 8, 12},
-		Ops: []string{"Add", "AddW", "Merge", "Copy", "Clear", "EncDec", "DecodeNew", "Proto"}, Q: 4, QDen: 8, Depth: c.pick(12, 24), Simulate: true, Num: c.pick(1500, 40000)}
+		Ops: []string{"Add", "AddW", "Merge", "Copy", "Clear", "EncDec", "DecodeNew", "Proto"}, Q: 4, QDen: 8, Depth: c.pick(12, 24), Simulate: true, Num: c.pick(1500, 20000)}
 	c.runSketchGen(sim, mx, c.pick(8, 16), "simulated histories, non-collapsing")
 	// "any sketch" includes the variant with exact statistics: its count, emptiness, extremes and clamped quantile
 	// answers must stay coherent with its bins after the same histories (copies must not share what they count with)
@@ -81,7 +81,7 @@ func checkC12(c *Ctx) {
 		sketches("plain", mk("low", 3), mk("high", 2), ex0, ex0),
 		sketches("plain", mk("high", 4), mk("low", 4), mk("low", 1), ex0)} {
 		simc := &SketchGen{Init: ks, Tokens: append(append([]int{}, tokBins3...), 0, 2, 16, 17, -16, -17), Weights: []int{1, 2, 4, 8},
-			Ops: []string{"Add", "AddW", "Merge", "Copy", "Clear", "EncDec", "DecodeNew"}, Q: 4, QDen: 8, Depth: c.pick(12, 20), Simulate: true, Num: c.pick(600, 15000)}
+			Ops: []string{"Add", "AddW", "Merge", "Copy", "Clear", "EncDec", "DecodeNew"}, Q: 4, QDen: 8, Depth: c.pick(12, 20), Simulate: true, Num: c.pick(600, 8000)}
 		c.runSketchGen(simc, mx, c.pick(6, 12), "simulated histories, collapsing stores")
 	}
 }
@@ -138,12 +138,12 @@ func checkC10(c *Ctx) {
 	c.runSketchGen(down, &mxMid, c.pick(4, 8), "exhaustive tree with strong down-scaling reweights")
 	sim := &SketchGen{Init: plainExact(3, "exact"), Tokens: append(append([]int{}, tokBins3...), 0, -1, 2, -2, 3, -3, 5000, -5002), Weights: []int{0, 1, 2, 4, 8, 12, 400},
 		Factors: [][2]int{{1, 2}, {1, 4}, {2, 1}, {3, 1}}, Ops: []string{"Add", "AddW", "Merge", "Copy", "Clear", "Reweight", "EncDec", "DecodeNew"},
-		Q: 4, QDen: 8, Depth: c.pick(12, 24), Simulate: true, Num: c.pick(1500, 40000)}
+		Q: 4, QDen: 8, Depth: c.pick(12, 24), Simulate: true, Num: c.pick(1500, 20000)}
 	c.runSketchGen(sim, mx, c.pick(8, 16), "simulated histories, exact variant")
 	// exact statistics do not depend on the store: collapsing stores keep exact min/max/count/sum
 	simc := &SketchGen{Init: []SketchInit{{"exact", 1, mk("low", 2), mk("high", 2)}, {"exact", 1, ex0, mk("low", 1)}}, Tokens: append(append([]int{}, tokBins3...), 0, 2),
 		Weights: []int{0, 2, 4, 8}, Factors: [][2]int{{1, 2}, {2, 1}}, Ops: []string{"Add", "AddW", "Merge", "Copy", "Clear", "Reweight", "EncDec", "DecodeNew"},
-		Q: 4, QDen: 8, Depth: c.pick(10, 20), Simulate: true, Num: c.pick(600, 15000)}
+		Q: 4, QDen: 8, Depth: c.pick(10, 20), Simulate: true, Num: c.pick(600, 8000)}
 	c.runSketchGen(simc, mx, c.pick(6, 12), "simulated histories, exact variant on collapsing stores")
 	// unit / mapping changes: statistics rescaled at the conversion, and afterwards both sketches evolve independently
 	cmInit := []SketchInit{{"exact", 1, ex0, ex0}, {"exact", 1, ex0, ex0}, {"exact", 2, ex0, ex0}}
@@ -152,7 +152,7 @@ func checkC10(c *Ctx) {
 	cmTree := &SketchGen{Init: cmInit[:2], Tokens: []int{11, -12}, Weights: []int{6}, Ops: []string{"AddW", "ChangeMap", "Clear"}, Q: 4, QDen: 8, Depth: 3}
 	c.runSketchGen(cmTree, mxc, c.pick(4, 8), "exhaustive tree with unit/mapping changes")
 	cmSim := &SketchGen{Init: cmInit, Tokens: append(append([]int{}, tokBins3...), 0, 2), Weights: []int{0, 2, 4, 8}, Factors: [][2]int{{1, 2}, {2, 1}},
-		Ops: []string{"Add", "AddW", "Merge", "Copy", "Clear", "Reweight", "ChangeMap", "EncDec"}, Q: 4, QDen: 8, Depth: c.pick(10, 20), Simulate: true, Num: c.pick(800, 20000)}
+		Ops: []string{"Add", "AddW", "Merge", "Copy", "Clear", "Reweight", "ChangeMap", "EncDec"}, Q: 4, QDen: 8, Depth: c.pick(10, 20), Simulate: true, Num: c.pick(800, 10000)}
 	c.runSketchGen(cmSim, mxc, c.pick(6, 12), "simulated histories with unit/mapping changes")
 }
 
@@ -187,7 +187,7 @@ func checkC14(c *Ctx) {
 				ops = []string{"Add", "AddW", "AddN", "Merge", "Copy", "Clear", "Reweight", "EncDec", "DecodeNew", "Read"}
 			}
 			sim := &SketchGen{Init: init, Tokens: append(append([]int{}, tokBins3...), 0, 2, -3), Weights: []int{1, 4, 8, 132, 280},
-				Factors: [][2]int{{1, 2}, {2, 1}, {3, 1}}, Ops: ops, Q: 4, QDen: 8, Depth: c.pick(16, 30), Simulate: true, Num: c.pick(500, 12000)}
+				Factors: [][2]int{{1, 2}, {2, 1}, {3, 1}}, Ops: ops, Q: 4, QDen: 8, Depth: c.pick(16, 30), Simulate: true, Num: c.pick(500, 6000)}
 			c.runSketchGen(sim, mx, c.pick(6, 12), "simulated histories with reads and copies, "+variant)
 		}
 	}
@@ -208,7 +208,7 @@ func checkC15(c *Ctx) {
 		for _, init := range mixedInits(variant) {
 			sim := &SketchGen{Init: init, Tokens: append(append([]int{}, tokBins3...), 0, 2, 16, 17, -16, -17), Weights: []int{1, 4, 8, 132, 280},
 				Factors: [][2]int{{1, 2}, {2, 1}}, Ops: []string{"Add", "AddW", "AddN", "Merge", "Copy", "Clear", "Reweight", "EncDec", "DecodeNew"},
-				Q: 4, QDen: 8, Depth: c.pick(16, 30), Simulate: true, Num: c.pick(500, 12000)}
+				Q: 4, QDen: 8, Depth: c.pick(16, 30), Simulate: true, Num: c.pick(500, 6000)}
 			c.runSketchGen(sim, mx, c.pick(6, 12), "simulated clear/reuse cycles, "+variant)
 		}
 	}
@@ -230,7 +230,7 @@ func checkC16(c *Ctx) {
 		for _, init := range mixedInits(variant) {
 			sim := &SketchGen{Init: init, Tokens: append(append([]int{}, tokBins3...), 0, 2), Weights: []int{1, 4, 4, 8, 132, 280},
 				Factors: [][2]int{{1, 4}, {1, 2}, {2, 1}, {3, 1}, {1, 1}}, Ops: []string{"Add", "AddW", "AddN", "Reweight", "Merge", "Copy"},
-				Q: 4, QDen: 8, Depth: c.pick(12, 24), Simulate: true, Num: c.pick(500, 12000)}
+				Q: 4, QDen: 8, Depth: c.pick(12, 24), Simulate: true, Num: c.pick(500, 6000)}
 			mxs := *mx
 			mxs.Aspects = map[string]bool{"reweight": true}
 			c.runSketchGen(sim, &mxs, c.pick(6, 12), "simulated histories with reweight, "+variant)
